@@ -288,7 +288,9 @@ def run(tier, replay=None):
         return do_replay(res, replay, listed)
     wd = workdir(PID)
     ctx = Ctx(res, wd, listed); ctx.kf = kf
+    t0 = time.time()
     progs, catalogue = spec_programs(wd, tier, res)
+    res.cov["seconds_tlc_syntax"] = round(time.time() - t0, 1); t0 = time.time()
     fams = set((os.environ.get("VERIF_C15_FAMILIES") or "probe,tree,compose,gen").split(","))    # developer knob
     pf = os.environ.get("VERIF_C15_PROBE_FILTER")                                                  # developer knob
     if pf:
@@ -334,6 +336,7 @@ def run(tier, replay=None):
                 ctx.violation("probe", r["stage"], "construct kind %s (variant %s) is not print/reparse-lossless [%s]: %s\n--- program\n%s"
                               % (K, o["variant"], r["stage"], r["detail"], o["text"]), o["dir"], meta)
         res.sample({"family": "probe", "kind": K, "variant": o["variant"], "program": o["text"], "result": r["status"], "stage": r["stage"]}, limit=3)
+    res.cov["seconds_probes"] = round(time.time() - t0, 1); t0 = time.time()
     failing = sorted(k for k, s in kind_status.items() if s["fail"])
     stale = sorted(k for k in listed if k in kind_status and not kind_status[k]["fail"] and not kind_status[k]["rejected"] and kind_status[k]["pass"])
     for k in stale:
@@ -359,8 +362,10 @@ def run(tier, replay=None):
         if fam == "compose" and r["status"] == "ok":
             res.sample({"family": "compose", "parts": j["parts"], "program": text, "expect": j["expect"], "result": "ok"}, limit=6)
     # ---- (d) generator stream ------------------------------------------------------------------------
+    res.cov["seconds_trees_compositions"] = round(time.time() - t0, 1); t0 = time.time()
     if "gen" in fams:
         gen_stream(ctx, res, tier, wd, pool, rng, failing)
+    res.cov["seconds_generator_stream"] = round(time.time() - t0, 1)
     pool.shutdown()
     res.cov.update({"evaluations": ctx.evals, "distinct_nontrivial": len(ctx.nontrivial),
                     "rule": "a case is one program text taken through print -> parse -> print -> RAM_initial equality -> outputs; "
